@@ -86,15 +86,25 @@ def build():
     C.globals["Util"] = VCls("Util")
 
     def util_first(I, a, k):
-        futs = I.iter_conc(a[0])
+        """returns one of the futures: one that is already done if there is one (then at once, without a timeout),
+        otherwise whichever completes first - or TimeoutError"""
+        futs = [I.force(x) for x in I.iter_conc(a[0])]
         timeout = k.get("timeout")
         n = len(futs)
         can_timeout = timeout is not None and I.force(timeout).tag != "none"
-        i = I.ctx.fork(n + (1 if can_timeout else 0))
-        if i == n:
-            emit(I, "first.timeout")
-            I.raise_("TimeoutError", "timeout")
-        f = I.force(futs[i])
+        dones = [I.truth(I.read_field(f.ref, "is_done")) if f.tag == "obj" and f.ref.cls == "Fut" else z3.BoolVal(False)
+                 for f in futs]
+        any_done = I.ctx.branch(z3.Or(*dones)) if dones else False
+        if any_done:
+            cand = [i for i in range(n)]
+            i = cand[I.ctx.fork(len(cand))]
+            I.ctx.assume(dones[i])
+        else:
+            i = I.ctx.fork(n + (1 if can_timeout else 0))
+            if i == n:
+                emit(I, "first.timeout")
+                I.raise_("TimeoutError", "timeout")
+        f = futs[i]
         if f.tag == "obj" and f.ref.cls == "Fut":
             I.write_field(f.ref, "is_done", VBool(True))
         emit(I, "first", chosen=f)
@@ -123,7 +133,8 @@ def build():
     C.ext("IncomingBallsHandlerI.wait_for_no_incoming_balls", model=ev_model("wait_for_no_incoming_balls"),
           trusted_reason="incoming balls handler")
     st("Target", name=Str, available_balls=Int)
-    C.ext("Target.is_playfield", model=lambda I, env, a, k: VBool(z3.Bool("target_is_playfield")), trusted_reason="device kind")
+    C.ext("Target.is_playfield", model=lambda I, env, a, k: VBool(z3.Bool("is_playfield[%s]" % env["self"].ref.name)),
+          trusted_reason="device kind (a fixed fact per device)", pure=True, result=Bool)
     C.ext("Target.wait_for_ready_to_receive", model=ev_model("target.wait_for_ready_to_receive"),
           trusted_reason="the target's readiness gate (C04 R1)")
     C.ext("Target.remove_incoming_ball", model=ev_model("target.remove_incoming_ball"), trusted_reason="target bookkeeping")
@@ -144,7 +155,11 @@ def build():
     C.cls("BallDevice", fields=DEV.fields)
     C.ext("BallDevice.set_eject_state", model=lambda I, env, a, k: (emit(I, "state", state=a[0]), NONE)[1],
           trusted_reason="eject state (monitoring)")
-    C.ext("BallDevice.lost_ejected_ball", model=lambda I, env, a, k: (emit(I, "lost_ejected_ball", target=k.get("target")), NONE)[1],
+    C.ext("BallDevice.lost_ejected_ball", params=dict(target=Opaque("Any")),
+          requires=[("a ball ejected to a PLAYFIELD is never declared lost (BallDevice.lost_ejected_ball raises "
+                     "AssertionError for playfields, which would end the device's eject task without any report)",
+                     "not target.is_playfield()")],
+          model=lambda I, env, a, k: (emit(I, "lost_ejected_ball", target=env.get("target")), NONE)[1],
           trusted_reason="BallDevice.lost_ejected_ball: reports the ball as lost (ball_lost event, missing-ball handling)")
     REQ = ObjS("OutgoingBall", max_tries=Int, eject_timeout=Int, target=ObjS("Target", C.classes["Target"].fields),
                player_controlled=Bool, already_left=Bool)
@@ -200,7 +215,8 @@ def build():
         return [e for e in I.cur_trace() if e.name == nm]
     for nm in ("call:_eject_ball", "call:_failed_eject", "call:_prepare_eject", "call:_handle_eject_success",
                "target.wait_for_ready_to_receive", "lost_ejected_ball", "task.cancel", "call:_skipping_ball",
-               "incoming.ball_arrived", "incoming.did_not_arrive", "call:_handle_late_confirm_or_missing"):
+               "incoming.ball_arrived", "incoming.did_not_arrive", "call:_handle_late_confirm_or_missing",
+               "call:_handle_playfield_timeout_confirm"):
         C.helpers["n_" + nm.replace("call:", "").replace(".", "_").lstrip("_")] = \
             (lambda n_: lambda I: VInt(len(calls(I, n_))))(nm)
 
@@ -235,12 +251,31 @@ def build():
         return a[0].args["eject_try"] if a else VInt(-1)
     C.helpers["attempt_try"] = attempt_try
 
+    def eject_future_resolved(I):
+        a = calls(I, "call:_eject_ball")
+        this = I.frames[0].env["self"].ref
+        cur = I.force(I.read_field(this, "_eject_future"))
+        if not a:
+            return VBool(True)
+        sets = [e for e in I.cur_trace() if e.name == "future.set_result"]
+        names = [e.name for e in I.cur_trace()]
+        after = [e for e in sets if I.cur_trace().index(e) > names.index("call:_eject_ball")]
+        if len(after) != 1:
+            return VBool(False)
+        return VBool(z3.And(I.eq(after[0].args["value"], a[0].ret), I.is_none(cur)))
+    C.helpers["eject_future_resolved"] = eject_future_resolved
+
+    def playfield_confirmed(I):
+        c = calls(I, "call:_handle_playfield_timeout_confirm")
+        return VBool(z3.And(z3.BoolVal(len(c) == 1), I.truth(c[0].ret)) if len(c) == 1 else z3.BoolVal(False))
+    C.helpers["playfield_confirmed"] = playfield_confirmed
+
     def broken_posted(I):
         return VBool(z3.Or(*[I.force(e.args["event"]).t == named(I, "_broken") for e in events_named(I, "post")] +
                            [z3.BoolVal(False)]))
     C.helpers["broken_posted"] = broken_posted
     C.trace_helpers = {"one_post", "n_posts", "last_state", "failed_report_is", "attempt_after_gate", "attempt_failed",
-                       "attempt_try", "broken_posted"} | {h for h in C.helpers if h.startswith("n_")}
+                       "attempt_try", "broken_posted", "eject_future_resolved", "playfield_confirmed"} | {h for h in C.helpers if h.startswith("n_")}
 
     def call_emit(name, *argnames, post=None):
         """what a callee contributes to the caller's trace: the call itself and (post=(kind, suffix, kwargs-fn)) the
@@ -294,9 +329,22 @@ def build():
 
     # ---- after a missed confirmation
     IBP = ObjS("IncomingBall", C.classes["IncomingBall"].fields)
-    C.ext("OutgoingBallsHandler._handle_playfield_timeout_confirm",
-          model=lambda I, env, a, k: VBool(False), trusted_reason="playfield shortcut (not under contract): modelled as "
-          "'did not confirm', the general table below then applies")
+    C.globals["asyncio.sleep"] = VFn("model", model=lambda I, a, k: (emit(I, "sleep"), NONE)[1])
+    FUT = ObjS("Fut", is_done=Bool, is_cancelled=Bool)
+    C.fn("OutgoingBallsHandler._handle_playfield_timeout_confirm",
+         params=dict(eject_request=REQ, ball_return_future=FUT, unknown_balls_future=FUT,
+                     incoming_ball_at_target=ObjS("IncomingBall", C.classes["IncomingBall"].fields)), result=Bool,
+         ensures=[("Q5: an eject to a playfield whose confirmation was missed counts as delivered unless the ball came "
+                   "back (or unknown balls appeared): then the incoming ball is confirmed and success reported",
+                   "(result and n_incoming_ball_arrived() == 1 and n_handle_eject_success() == 1) if not "
+                   "(ball_return_future.is_done or unknown_balls_future.is_done) else (not result and "
+                   "n_handle_eject_success() == 0)")],
+         modifies=["incoming_ball_at_target.resolved"], raises={},
+         emits=call_emit("_handle_playfield_timeout_confirm"),
+         call_ensures=[("not confirmed only because the ball returned or unknown balls appeared",
+                        "implies(not result, ball_return_future.is_done or unknown_balls_future.is_done)"),
+                       ("confirmed: the incoming ball is resolved", "implies(result, incoming_ball_at_target.resolved == "
+                        "old(incoming_ball_at_target.resolved) + 1)")])
     C.fn("OutgoingBallsHandler._handle_late_confirm_or_missing",
          params=dict(eject_request=REQ, ball_eject_process=ObjS("EjectTracker"), incoming_ball_at_target=IBP,
                      eject_try=Int), result=Bool,
@@ -304,8 +352,8 @@ def build():
          ensures=[
              ("Q1: True is returned only for a (late) confirmation - reported as success - or for a ball that is "
               "reported as failed (retry=True) AND lost; False (retry) only after the incoming ball was withdrawn",
-              "(n_handle_eject_success() == 1 or (failed_report_is(eject_try, True) and n_lost_ejected_ball() == 1 and "
-              "n_incoming_did_not_arrive() == 1)) if result else (n_incoming_did_not_arrive() == 1 and "
+              "(n_handle_eject_success() == 1 or playfield_confirmed() or (failed_report_is(eject_try, True) and "
+              "n_lost_ejected_ball() == 1 and n_incoming_did_not_arrive() == 1)) if result else (n_incoming_did_not_arrive() == 1 and "
               "n_handle_eject_success() == 0 and n_lost_ejected_ball() == 0)"),
              ("Q2: the incoming ball registered at the target is resolved at most once and never both ways",
               "incoming_ball_at_target.resolved <= 1"),
@@ -423,7 +471,9 @@ def build():
                   "number of attempts, and is counted",
                   "implies(attempt_failed(), failed_report_is(attempt_try() + 1, True) and eject_try == attempt_try() + 1)"),
                  ("E3: without a failed attempt nothing is reported as failed", "implies(not attempt_failed(), "
-                                                                                "n_failed_eject() == 0)")])},
+                                                                                "n_failed_eject() == 0)"),
+                 ("E6: the eject future of an attempt is resolved with the attempt's result after EVERY attempt (a source "
+                  "waiting to send the next ball is always woken), and dropped", "eject_future_resolved()")])},
          ensures=[
              ("E4: the loop gives up (False) only when max_tries is set and reached: the last failed attempt is "
               "reported once with retry=False, the device enters eject_broken and posts balldevice_<n>_broken - it "
@@ -434,6 +484,7 @@ def build():
              ("E5: True is returned only after a successful attempt, a cancelled request or a confirmed skip - never "
               "after a failed attempt", "implies(result, not attempt_failed() and n_failed_eject() == 0)"),
              ("E1 (last pass)", "n_eject_ball() <= 1 and attempt_after_gate()"),
+             ("E6 (last pass)", "eject_future_resolved()"),
          ],
          modifies=["self._cancel_future", "self._eject_future", "eject_request.already_left"],
          raises={"AssertionError": "False"})
